@@ -30,7 +30,7 @@ fn top_string_is(ev: &Evaluator<'_, '_>, chars: &[char]) -> bool {
     }
 }
 
-// @harness id=c18_slice_string_negative props=C18,C02 tier=thorough cap=1500
+// @harness id=c18_slice_string_negative props=C18,C02 tier=attempt cap=1500
 // @desc do_slice_string (s[a:b], std.slice on strings) on a string of two arbitrary characters (any UTF-8 widths) with the slices [-1:], [:-1] and [1:]: negative bounds count CHARACTERS from the end, so the results are the last character, the first character and the last character
 // @bound strings of 2 arbitrary Unicode scalar values (2..8 bytes), three slice shapes
 // @funcs Evaluator::do_slice_string, Evaluator::get_slice_range
@@ -65,7 +65,42 @@ fn c18_slice_string_negative() {
 }
 }
 
-// @harness id=c18_codepoint_char_inverse props=C18,C01:thorough tier=thorough cap=1500
+// @harness id=c18_slice_fixed_string props=C18,C02 tier=attempt cap=1500
+// @desc do_slice_string (s[a:], std.slice) on the FIXED string of a 2-byte and a 3-byte character followed by an ASCII letter, with ANY integral start bound in -4..=4 and no end: the result is the suffix of CHARACTERS from the position the bound denotes (a negative bound counts characters from the end, clamped at 0; a positive one is clamped at the length 3) - the byte length (6) never enters
+// @bound the string U+00E9 U+20AC 'z' (3 characters, 6 bytes); start in -4..=4; no end, no step
+// @funcs Evaluator::do_slice_string, Evaluator::get_slice_range
+eval_stubs! {
+#[kani::proof]
+#[kani::unwind(12)]
+#[kani::stub(alloc::string::String::reserve, crate::kani_support::stub_string_reserve)]
+fn c18_slice_fixed_string() {
+    let arena = Arena::new();
+    let mut program = bare_program(&arena);
+    let mut ev = bare_evaluator(&mut program);
+    let s = "\u{e9}\u{20ac}z";
+    let k: i8 = kani::any();
+    kani::assume(k >= -4 && k <= 4);
+    let res = ev.do_slice_string(s, Some(k as f64), None, None, None);
+    assert!(res.is_ok(), "integral bounds are accepted");
+    // first character kept: negative bounds count from the end of the 3 CHARACTERS
+    let first: usize = if k < 0 { if -k >= 3 { 0 } else { (3 + k) as usize } } else if k > 3 { 3 } else { k as usize };
+    let want: &str = match first {
+        0 => "\u{e9}\u{20ac}z",
+        1 => "\u{20ac}z",
+        2 => "z",
+        _ => "",
+    };
+    assert!(matches!(ev.value_stack.last(), Some(ValueData::String(r)) if r.as_bytes() == want.as_bytes()), "the suffix starts at a character position counted in characters");
+    kani::cover!(k == -1, "last character");
+    kani::cover!(k == -2, "last two characters");
+    kani::cover!(k == 4, "beyond the end");
+    core::mem::forget(res);
+    core::mem::forget(ev);
+    core::mem::forget(program);
+}
+}
+
+// @harness id=c18_codepoint_char_inverse props=C18,C01:thorough tier=attempt cap=1500
 // @desc std.char and std.codepoint at their Rust entry points: std.char(n) succeeds exactly when trunc(n) is a Unicode scalar value and then std.codepoint(std.char(n)) == trunc(n); surrogates, negative numbers and numbers above 0x10FFFF are errors; std.codepoint of a two-character string is an error
 // @bound all finite doubles for std.char; all scalar values; strings of 1 and 2 characters
 // @funcs Evaluator::do_std_char, Evaluator::do_std_codepoint, ValueData::from_char, float::try_to_u32
@@ -99,7 +134,7 @@ fn c18_codepoint_char_inverse() {
 }
 }
 
-// @harness id=c18_length_counts_chars props=C18 tier=thorough cap=1500
+// @harness id=c18_length_counts_chars props=C18 tier=attempt cap=1500
 // @desc std.length on a string of two arbitrary characters is 2 whatever their UTF-8 widths (2..8 bytes), and std.codepoint of such a string is an error (not single-character)
 // @bound strings of 2 arbitrary Unicode scalar values
 // @funcs Evaluator::do_std_length, Evaluator::do_std_codepoint
@@ -129,7 +164,7 @@ fn c18_length_counts_chars() {
 }
 }
 
-// @harness id=c18_join_str_item props=C18 tier=thorough cap=1500
+// @harness id=c18_join_str_item props=C18 tier=attempt cap=1500
 // @desc one step of std.join with a string separator (do_std_join_str_item) from any reachable pre-state - accumulator "" or "a", the first-item flag set or not (set implies an empty accumulator, but an empty accumulator does not imply the flag: a leading "" item clears it), item null / "" / "b": null items are skipped; otherwise the separator is inserted exactly when an item has been appended before (flag clear), also after leading empty strings, so that std.join(c, std.split(s, c)) == s for s starting with c
 // @bound accumulator in {"", "a"}, item in {null, "", "b"}, separator ","
 // @funcs Evaluator::do_std_join_str_item
